@@ -1,0 +1,38 @@
+//! Verification hooks (cargo feature `verif-hooks`, off by default).
+//!
+//! `sched_point(site)` marks a position between two consecutive accesses to
+//! shared state. It is a no-op unless a controller has been installed by a
+//! deterministic-simulation harness, which then decides which thread runs next.
+//! No hook is placed inside a region that holds a lock or a map guard.
+
+use std::sync::atomic::{AtomicBool, Ordering};
+use std::sync::{Arc, RwLock};
+
+/// Receives every scheduling point reached by any thread.
+pub trait SchedController: Send + Sync {
+    /// Called with the static name of the site; may block the calling thread.
+    fn sched_point(&self, site: &'static str);
+}
+
+static INSTALLED: AtomicBool = AtomicBool::new(false);
+static CONTROLLER: RwLock<Option<Arc<dyn SchedController>>> = RwLock::new(None);
+
+/// Install (or, with `None`, remove) the process-wide controller.
+pub fn install_controller(controller: Option<Arc<dyn SchedController>>) {
+    if let Ok(mut slot) = CONTROLLER.write() {
+        INSTALLED.store(controller.is_some(), Ordering::SeqCst);
+        *slot = controller;
+    }
+}
+
+/// A scheduling point. Does nothing when no controller is installed.
+#[inline]
+pub fn sched_point(site: &'static str) {
+    if !INSTALLED.load(Ordering::Relaxed) {
+        return;
+    }
+    let controller = CONTROLLER.read().ok().and_then(|slot| slot.clone());
+    if let Some(controller) = controller {
+        controller.sched_point(site);
+    }
+}
